@@ -288,7 +288,62 @@ def one_workbook(ctx, rng, spec, meta, n_alter):
         one_unevaluable(ctx, spec, meta, stored, a, rng.choice(['nosuch', 'failk']), second=b)
 
 
+DIRECTED = [
+    # (tag, cells, stored results, keyword arguments, altered cell that must be named, cells that must be listed as
+    #  not evaluable, cells that must not be listed anywhere)
+    ('altered-cell-only-under-a-whole-column-reference',
+     {'A1': 1, 'A2': 2, 'B1': '=A1*2', 'B2': '=A2*3', 'C1': '=SUM(B:B)', 'D4': 5},
+     {'B1': 2, 'B2': 7, 'C1': 8}, {'output_addrs': ['Sheet1!C1']}, 'B2', [], ['B1']),
+    ('altered-cell-only-under-a-whole-row-reference',
+     {'A1': 1, 'B1': 2, 'A2': '=A1*2', 'B2': '=B1*3', 'C4': '=SUM(2:2)'},
+     {'A2': 2, 'B2': 7, 'C4': 8}, {'output_addrs': ['Sheet1!C4']}, 'B2', [], ['A2']),
+    ('cell-that-does-not-compile-and-its-reader',
+     {'A1': 1, 'A2': 2, 'A3': 3, 'B1': '=SUBTOTAL(12,A1:A3)', 'C1': '=B1+1', 'B3': '=A1+A2'},
+     {'B3': 4}, {}, 'B3', ['B1', 'C1'], []),
+    ('cell-that-cannot-be-built-is-visited-first',
+     {'A1': 1, 'A2': 2, 'B1': '=A1*2', 'B2': '=A2*3', 'B9': '=[1]Prices!A1*2'},
+     {'B1': 2, 'B2': 7}, {}, 'B2', ['B9'], ['B1']),
+    ('cell-that-cannot-be-built-is-visited-first',
+     {'A1': 1, 'A2': 2, 'B1': '=A1*2', 'B2': '=A2*3', 'B9': '=Missing!A1*2', 'C9': '=B1+B2'},
+     {'B1': 2, 'B2': 7, 'C9': 8}, {'output_addrs': ['Sheet1!C9', 'Sheet1!B9']}, 'B2', ['B9'], ['B1']),
+]
+
+
+def directed(ctx):
+    from pycel import ExcelCompiler
+    for tag, cells, stored, kw, altered, unevaluable, quiet_cells in DIRECTED:
+        spec = {'sheets': [['Sheet1', cells]], 'names': {}, 'arrays': [], 'calc': None}
+        path = os.path.join(ctx.tmpdir, 'c12d.xlsx')
+        wb.write_xlsx(spec, path, {f'Sheet1!{c}': v for c, v in stored.items()})
+        case = {'kind': 'directed', 'tag': tag}
+        ctx.count('directed_cases')
+        ctx.case(('directed', tag, repr(cells)))
+        try:
+            report = quiet(ExcelCompiler(filename=path).validate_calcs, **kw)
+        except Exception as exc:
+            if not wb.raised_outside_harness(exc):
+                raise
+            ctx.violation(f'validate_calcs-raises/{tag}', f'{wb.describe(exc)} for {cells}', case)
+            continue
+        listed = [e[0] for k, sec in report.items() if k != 'mismatch' for es in sec.values() for e in es]
+        mism = report.get('mismatch', {})
+        problems = []
+        if f'Sheet1!{altered}' not in mism:
+            problems.append(f'the altered stored result of {altered} is not named')
+        for c in unevaluable:
+            if f'Sheet1!{c}' not in listed:
+                problems.append(f'{c} cannot be evaluated and is not listed under exceptions / not-implemented')
+        for c in quiet_cells:
+            if f'Sheet1!{c}' in mism or f'Sheet1!{c}' in listed:
+                problems.append(f'{c} is consistent and is reported')
+        if problems:
+            ctx.violation(f'directed/{tag}', f'{cells} with stored results {stored}, validate_calcs({kw}): ' +
+                          '; '.join(problems) + f'. mismatches {list(mism)}, not evaluable {listed}', case)
+
+
 def run(ctx):
+    if ctx.shard == 0:
+        directed(ctx)
     rng = ctx.rng
     i = 0
     late = []
@@ -325,6 +380,9 @@ def pristine_stored_results(ctx, books):
 
 
 def replay(ctx, case):
+    if case.get('kind') == 'directed':
+        directed(ctx)
+        return
     if case.get('kind') == 'real-book':
         realbooks.c12_case(ctx, case['book'], case['case_seed'])
         return
